@@ -749,4 +749,30 @@ theorem lockAll_handles (a : Api) (sid h0 : Nat) (pairs : List (Nat × Nat)) (hi
         simp [Function.comp_def]
     · cases h
 
+theorem cancelHandle_s (a : Api) (h : Nat) : (a.cancelHandle h).1.s = (cancel a.s h).1 := by
+  unfold Api.cancelHandle; simp only []; split
+  · simp only [woken_s]
+  · rfl
+
+theorem cancelAll_s (l : List Nat) : ∀ (b : Api),
+    (l.foldl (fun a h => (a.cancelHandle h).1) b).s = run b.s (l.map Act.cancel) := by
+  induction l with
+  | nil => intro b; rfl
+  | cons x xs ih =>
+    intro b
+    simp only [List.foldl_cons, List.map_cons]
+    rw [ih, cancelHandle_s]
+    simp [run, List.foldl, step]
+
+/-- the wake-up a scheduled segment performs is exactly the hand-off of the section at its park point -/
+theorem wakeOf_is_handoff (s : State) (p : Park) (w : Nat) (h : wakeOf s p = some w) :
+    ∃ act : Act, handedTo s act = some w ∧
+      ((∃ x c, p = .gRelease x c ∧ act = .release x) ∨ (∃ x, p = .gCancel x ∧ act = .cancel x) ∨
+       (∃ x r, p = .gCancelS x r ∧ act = .cancel x)) := by
+  cases p with
+  | gRelease x c => exact ⟨.release x, h, Or.inl ⟨x, c, rfl, rfl⟩⟩
+  | gCancel x => exact ⟨.cancel x, h, Or.inr (Or.inl ⟨x, rfl, rfl⟩)⟩
+  | gCancelS x r => exact ⟨.cancel x, h, Or.inr (Or.inr ⟨x, r, rfl, rfl⟩)⟩
+  | _ => simp [wakeOf] at h
+
 end Lockable
